@@ -55,6 +55,10 @@ def r20_target(repo, sink):
                 f"{e.kind}: needs_push={e.facts['needs_push']}, pulls {e.facts['get_pulls'] or e.facts['notify_pulls']}")
     sink.floor("R20", "adapter classes", len(ads), 18)
     sink.floor("R20", "pull sites in adapters", n_pulls, 12)
+    try:
+        r20p_every_request_pulls(repo, sink)
+    except (AnalysisError, Undecided) as exc:
+        sink.unknown("R20", "every-request-pulls", None, f"outside vocabulary: {exc}")
     # Adapter.pinged registers self iff needs_push
     for e in ads:
         f = repo.resolve(e.cls, "pinged", "method")
@@ -144,7 +148,8 @@ def r20_target(repo, sink):
     od.name(tn, "tn", 1)
     it = _N(repo, od)
     me = Obj(cls=rep.cls, label=rep.name)
-    me.fields.update(logger=Logger(label="logger"), _targets=[Obj(label="tgt1"), Obj(label="tgt2")], targets=[Obj(label="tgt1"), Obj(label="tgt2")], name="a")
+    me.fields.update(logger=Logger(label="logger"), _targets=_quiet_targets(), name="a")
+    me.fields["targets"] = me.fields["_targets"]
     try:
         it.run(su, [tn], self_obj=me)
         want = [("buffer", tn), ("notify", "tgt1", tn), ("notify", "tgt2", tn)]
@@ -166,7 +171,7 @@ def r20_target(repo, sink):
     outn = repo.resolve(repo.cls("Output"), "notify_targets", "method")
     it = _N(repo, od)
     o = Obj(cls=repo.cls("Output"), label="Output")
-    o.fields.update(logger=Logger(label="logger"), _targets=[Obj(label="tgt1"), Obj(label="tgt2")], _static=False, name="o")
+    o.fields.update(logger=Logger(label="logger"), _targets=_quiet_targets(), _static=False, name="o")
     it.run(outn, [tn], self_obj=o)
     sink.check(it.events == [("notify", "tgt1", tn), ("notify", "tgt2", tn)], "R20", "notify-all-targets", outn,
                ok="an output notifies every target with the publication time", bad=f"Output.notify_targets performs {it.events!r}")
@@ -175,6 +180,13 @@ def r20_target(repo, sink):
     pings = [x for x in calls(c.node, "ping")]
     ok = len(pings) == 1 and any(isinstance(p, ast.For) and "inputs" in U(p.iter) for p in _parents(pings[0]))
     sink.check(ok, "R20", "ping-all-inputs", c, ok="connect() pings every input once", bad="connect() does not ping every input")
+
+
+def _quiet_targets():
+    """Two targets that do not ask for notifications themselves (needs_push False, nothing downstream): they are notified all the
+    same - DelayToPush learns the newest publication time from notifications without declaring needs_push."""
+    return [Obj(label="tgt1", markers={"IAdapter", "IInput"}, fields={"needs_push": False, "needs_pull": False, "targets": [], "name": "tgt1"}),
+            Obj(label="tgt2", markers={"IAdapter", "IInput"}, fields={"needs_push": False, "needs_pull": False, "targets": [], "name": "tgt2"})]
 
 
 class _PullRec(_Rec):
@@ -189,6 +201,118 @@ def _parents(n):
     while cur is not None:
         yield cur
         cur = getattr(cur, "_parent", None)
+
+
+class _Tolerant(ExchMixin, FinamInterp):
+    """For rules that only watch which calls reach the link ends: external calls, unknown attributes and arithmetic become
+    opaque terms, value-dependent branches are explored on both outcomes."""
+
+    def __init__(self, repo):
+        super().__init__(repo)
+        self.pulls = []
+
+    def ext_call(self, name, args, kwargs, node):
+        try:
+            return super().ext_call(name, args, kwargs, node)
+        except AnalysisError:
+            return Sym("opaque", name)
+
+    def ext_isinstance(self, v, name, node):
+        try:
+            return super().ext_isinstance(v, name, node)
+        except Undecided:
+            return self.decide(Sym("isinstance", repr(v), name), node)
+
+    def get_attr(self, obj, attr, node, mod):
+        try:
+            return super().get_attr(obj, attr, node, mod)
+        except AnalysisError:
+            if isinstance(obj, Obj) and obj.cls is not None:
+                return Sym("field", attr)
+            return Sym("opaque", f"{getattr(obj, 'op', type(obj).__name__)}.{attr}")
+
+    def call_hook(self, fv, args, kwargs, node, mod):
+        if isinstance(fv, Closure) and fv.self_obj is not None and getattr(fv.func, "name", "") == "pull_data":
+            self.pulls.append((args[0], args[1] if len(args) > 1 else kwargs.get("target")))
+            return Sym("pulled", len(self.pulls))
+        if isinstance(fv, Closure) and getattr(fv.func, "name", "") in ("prepare",):
+            r = Sym("prepared", args[0])
+            return (r, None) if kwargs.get("report_conversion") else r
+        if isinstance(fv, Sym) and fv.op in ("opaque", "field", "opq"):
+            return Sym("opaque", "call")
+        r = super().call_hook(fv, args, kwargs, node, mod)
+        return r
+
+    def call(self, fv, args, kwargs, node, mod):
+        try:
+            return super().call(fv, args, kwargs, node, mod)
+        except AnalysisError:
+            if isinstance(fv, Sym):
+                return Sym("opaque", "call")
+            raise
+
+    def binop(self, op, left, right, node):
+        try:
+            return super().binop(op, left, right, node)
+        except AnalysisError:
+            return Sym("opaque", "binop")
+
+    def sym_compare(self, op, left, right, node):
+        try:
+            return super().sym_compare(op, left, right, node)
+        except Undecided:
+            return self.decide(Sym("cmp", type(op).__name__, repr(left), repr(right)), node)
+
+    def sym_item(self, c, k, node):
+        return Sym("opaque", "item")
+
+    def iterate(self, v, node):
+        if isinstance(v, Sym):
+            return []
+        return super().iterate(v, node)
+
+
+def r20p_every_request_pulls(repo, sink):
+    """Pass-through and delay adapters hand EVERY request to their source, with the requesting end point: two requests for the
+    same time by two different end points give two pulls (a request that is answered from a cache never reaches the source
+    output, whose per-consumer bookkeeping then waits for that consumer forever - the history grows without bound)."""
+    from .exchange import _adapter
+    ads = [e for e in lek.table(repo)[0] if e.kind in (lek.PASS, lek.DELAY, lek.BREAK)]
+    n = 0
+    for e in ads:
+        c = e.cls
+        f = repo.resolve(c, "get_data", "method")
+        q = Sym("q")
+        why = None
+        try:
+            it = _Tolerant(repo)
+            it.order.name(q, "q", 1)
+            it.fork = True
+            ta, tb = Obj(label="end point A", markers={"IInput"}), Obj(label="end point B", markers={"IInput"})
+
+            def thunk(it=it, c=c, f=f, ta=ta, tb=tb):
+                me = _adapter(repo, c)
+                me.fields.update(_output_info=Obj(label="info"), initial_time=Sym("t_init"))
+                it.pulls = []
+                it.run(f, [q, ta], self_obj=me)
+                it.run(f, [q, tb], self_obj=me)
+                return list(it.pulls)
+
+            paths = it.run_all(thunk, limit=256)
+        except (AnalysisError, Undecided, RecursionError) as exc:
+            sink.unknown("R20", f"every-request-pulls:{c.name}", f, f"{c.name}.get_data outside vocabulary: {exc}")
+            continue
+        n += 1
+        for _d, (kind, val) in paths:
+            if kind == "raise":
+                continue
+            targets = [t for _t, t in val]
+            if targets != [ta, tb]:
+                why = why or (f"two end points request the same time one after the other: the source is asked with targets "
+                              f"{[getattr(t, 'label', t) for t in targets]}; each request must reach the source once with its own end point")
+        sink.check(why is None, "R20", f"every-request-pulls:{c.name}", f,
+                   ok="every request is handed to the source with the requesting end point (no request is answered from a cache)", bad=why or "")
+    sink.floor("R20", "pass-through / delay adapters interpreted", n, 6)
 
 
 # =========================================================================== R30
@@ -381,7 +505,7 @@ def _r30_clamps(repo, sink):
 
 
 # =========================================================================== R17
-class _PushRec(FinamInterp):
+class _PushRec(ExchMixin, FinamInterp):
     """Output.push_data with recorded stages."""
 
     def __init__(self, repo, order, shares=False):
@@ -400,12 +524,20 @@ class _PushRec(FinamInterp):
                 self.events.append(("pack", args[0]))
                 return Sym("packed", args[0])
             if n == "notify_targets" and fv.self_obj is not None:
-                self.events.append(("notify", args[0], len(fv.self_obj.fields["data"]), fv.self_obj.fields.get("_time")))
+                g = self.repo.resolve(fv.self_obj.cls, "time", "getter") if fv.self_obj.cls is not None else None
+                now = self.run(g, [], self_obj=fv.self_obj) if g is not None else None
+                self.events.append(("notify", args[0], len(fv.self_obj.fields["data"]), now))
                 return None
+            if n == "is_quantified":
+                return bool(getattr(self, "quantified", False)) and isinstance(args[0], Sym) and args[0].op == "payload"
         return super().call_hook(fv, args, kwargs, node, mod)
 
     def get_attr(self, obj, attr, node, mod):
-        if isinstance(obj, Sym) and obj.op in ("prepared", "payload", "prev") and attr in ("data", "size", "nbytes"):
+        if isinstance(obj, Sym) and obj.op == "payload" and attr == "units":
+            return Sym("dimensionless")
+        if isinstance(obj, Sym) and obj.op == "ext" and attr == "dimensionless":
+            return Sym("dimensionless")
+        if isinstance(obj, Sym) and obj.op in ("prepared", "payload", "prev", "packed", "earlier") and attr in ("data", "size", "nbytes", "magnitude"):
             return Sym("attr", obj, attr)
         return super().get_attr(obj, attr, node, mod)
 
@@ -428,14 +560,39 @@ def r17_pushpath(repo, sink):
     f = repo.resolve(c, "push_data", "method")
     q = Sym("q")
 
-    def mk(n_prev=0, prev_file=False, static=False, exchanged=True, targets=True):
+    def mk(n_prev=0, prev_file=False, static=False, exchanged=True, targets=True, n_pinged=1, n_exchanged=None):
+        """An output as the real code leaves it: constructed (partial evaluation of the constructors), given its info by
+        push_info, linked by add_target, registered end points by pinged, infos exchanged by get_info - then `n_prev` real
+        publications.  No private attribute is named; the payloads of earlier publications are then replaced by stand-ins."""
+        from ..absbase import seed_from_init
+        from .exchange import G1, T1, U1, xinfo
+        od = Order()
+        od.name(q, "q", 10)
+        for i in range(n_prev):
+            od.name(Sym("T", i), f"T{i}", i)
+        it = _PushRec(repo, od, False)
         o = Obj(cls=c, label="Output")
-        prev = [(Sym("T", i), Sym("file", i) if prev_file else Sym("prev", i)) for i in range(n_prev)]
-        o.fields.update(data=prev, name="out", _name="out", logger=Logger(label="logger"), _total_mem=0,
-                        _output_info=Obj(label="info"), _connected_inputs={Obj(label="c"): None},
-                        _out_infos_exchanged=1 if exchanged else 0, _static=static, _targets=[Obj(label="t")] if targets else [],
-                        _time=Sym("T", n_prev - 1) if n_prev else None)
+        seed_from_init(it, c, o, {"name": "out", "info": None, "static": static})
+        o.fields["logger"] = Logger(label="logger")
+        own = xinfo("own", G1, T1, U1)
+        it.run(repo.resolve(c, "push_info", "method"), [own], self_obj=o)
+        if targets:
+            it.run(repo.resolve(c, "add_target", "method"), [Obj(label="t", markers={"IInput", "IAdapter"})], self_obj=o)
+            ends = [Obj(label=f"c{k}", markers={"IInput"}, fields={"name": f"c{k}"}) for k in range(n_pinged)]
+            for e in ends:
+                it.run(repo.resolve(c, "pinged", "method"), [e], self_obj=o)
+            n_ex = n_pinged if (n_exchanged is None and exchanged) else (n_exchanged or 0)
+            for _k in range(n_ex):
+                it.run(repo.resolve(c, "get_info", "method"), [xinfo("req", G1, T1, U1)], self_obj=o)
+        for i in range(n_prev):
+            it.run(f, [Sym("earlier", i), None if static else Sym("T", i)], self_obj=o)
+        if n_prev:
+            o.fields["data"] = [(t, Sym("file", i) if prev_file else Sym("prev", i)) for i, (t, _p) in enumerate(o.fields["data"])]
         return o
+
+    def time_of(o):
+        g = repo.resolve(c, "time", "getter")
+        return FinamInterp(repo).run(g, [], self_obj=o) if g is not None else None
 
     def run(o, time=q, shares=False):
         od = Order()
@@ -468,7 +625,7 @@ def r17_pushpath(repo, sink):
     o = mk(n_prev=2)
     err, it = run(o, shares=True)
     sc = [e for e in it.events if e[0] == "sharecheck"]
-    ok = (err == "FinamDataError" and len(o.fields["data"]) == 2 and o.fields["_time"] == Sym("T", 1)
+    ok = (err == "FinamDataError" and len(o.fields["data"]) == 2 and time_of(o) == Sym("T", 1)
           and not any(e[0] in ("pack", "notify") for e in it.events)
           and len(sc) == 1 and Sym("attr", Sym("prev", 1), "data") in sc[0][1:] and Sym("attr", Sym("prepared", Sym("payload")), "data") in sc[0][1:])
     cases.append(("shares-memory-with-newest", ok, f"{err} {it.events} data={o.fields['data']!r}"))
@@ -481,10 +638,39 @@ def r17_pushpath(repo, sink):
     err, it = run(o)
     kinds = [e[0] for e in it.events]
     ok = (err is None and kinds == ["prepare", "sharecheck", "pack", "notify"]
-          and it.events[0][2] is o.fields["_output_info"]
+          and getattr(it.events[0][2], "label", None) == "own"
           and o.fields["data"][-1] == (q, Sym("packed", Sym("prepared", Sym("payload"))))
-          and o.fields["_time"] == q and it.events[-1][1:] == (q, 2, q))
-    cases.append(("publication", ok, f"{err} {it.events} data={o.fields['data']!r} _time={o.fields['_time']!r}"))
+          and time_of(o) == q and it.events[-1][1:] == (q, 2, q))
+    cases.append(("publication", ok, f"{err} {it.events} data={o.fields['data']!r} time={time_of(o)!r}"))
+    # 7c a payload that is a dimensionless quantity is published as it is (prepare decides about units; fractions pushed to a
+    # percent output are converted, lengths are refused)
+    o = mk(n_prev=0)
+    od = Order()
+    od.name(q, "q", 10)
+    itq = _PushRec(repo, od, False)
+    itq.quantified = True
+    try:
+        itq.run(f, [Sym("payload"), q], self_obj=o)
+        pre = [e for e in itq.events if e[0] == "prepare"]
+        cases.append(("dimensionless-quantity", len(pre) == 1 and pre[0][1] == Sym("payload"),
+                      f"a payload quantified as dimensionless reaches prepare as {pre[0][1] if pre else None!r}: its (dimensionless) units are stripped, "
+                      "the numbers are relabelled with the output's units instead of converted / refused"))
+    except Raised as r:
+        cases.append(("dimensionless-quantity", False, f"raises {r.name}"))
+    # 7b the link branches behind a pull adapter: one direct target, two registered end points.  Data may flow only after
+    # BOTH have exchanged their info (otherwise the producer reports itself connected while a consumer is still negotiating)
+    for n_ex, want in ((1, "FinamNoDataError"), (2, None)):
+        o = mk(n_pinged=2, n_exchanged=n_ex)
+        err, it = run(o)
+        cases.append((f"branch-behind-adapter:{n_ex}-of-2-exchanged", err == want and (want is None or (not it.events and o.fields["data"] == [])),
+                      f"one direct target (an adapter), two registered end points, {n_ex} info exchange(s) done: push gives {err}, expected {want}"))
+        try:
+            FinamInterp(repo).run(repo.resolve(c, "info", "getter"), [], self_obj=o)
+            ierr = None
+        except Raised as r:
+            ierr = r.name
+        cases.append((f"branch-behind-adapter:info:{n_ex}-of-2-exchanged", ierr == want,
+                      f"one direct target, two registered end points, {n_ex} exchange(s) done: Output.info gives {ierr}, expected {want}"))
     # 8 static first push: stored with time None
     o = mk(static=True)
     err, it = run(o, time=q)
